@@ -11,12 +11,13 @@
 #include <frg/printf.hpp>
 #define NI __attribute__((noinline))
 
-extern "C" void vp_out(char c);                                    // sink: one byte of literal text
+extern "C" void vp_out(char c);                                    // sink: one byte of literal text ("%%")
+extern "C" void vp_text(const char *p, size_t n);                  // sink: a run of literal text, handed over as (pointer, length)
 extern "C" void vp_conv(char t, int szmod, uint64_t v);           // a conversion was dispatched and consumed its argument
 
 struct c20_agent {
 	frg::expected<frg::format_error> operator() (char c) { vp_out(c); return frg::success; }
-	frg::expected<frg::format_error> operator() (const char *c, size_t n) { for(size_t i = 0; i < n; i++) vp_out(c[i]); return frg::success; }
+	frg::expected<frg::format_error> operator() (const char *c, size_t n) { vp_text(c, n); return frg::success; }
 	frg::expected<frg::format_error> operator() (char t, frg::format_options opts, frg::printf_size_mod szmod) {
 		switch(t) {
 		case 'c': vp_conv(t, (int)szmod, (uint64_t)(unsigned char)frg::pop_arg<char>(vsp, &opts)); break;
